@@ -7,7 +7,7 @@ from vlib.sexp import Q
 
 PROP = "C04"
 LEAN_MODULES = ["ShootVerif.Props.C04"]
-USES_FACTS = False
+USES_FACTS = True
 DRIVER = "shootmodel_enum"
 
 MANIFEST = dict(
@@ -80,6 +80,8 @@ def stale_variants(ctx, en, decl):
 
 def make_case(ctx, cid, en, batch=None, mode=None):
     T = en["T"]
+    if mode is None and not enumgen.classify(en)[1]:
+        mode = "type"                      # no constant of the type: nothing to put next to it
     lay = enumgen.layout(ctx, GEN[0], en, force=mode)
     cl, decl = enumgen.classify(en)
     win = enumgen.window(en["kind"], [v for _, v in decl]) if decl else [0, 1]
